@@ -439,6 +439,44 @@ def timezone_check(ctx, loop, model_ok):
     return problems, dis, len(zones)
 
 
+def quoted_bool_probe(loop):
+    """coerced to the variable's type: the words ON / OFF / TRUE / FALSE / 1 / 0 given as a string to a boolean variable mean
+    what they say (MySQL's own reading; Python's bool('OFF') is True) - by SET and by a SET_VAR hint; another string is
+    refused and changes nothing"""
+    from mysql_mimic.variables import SessionVariables, GlobalVariables
+    names = [n for n, (t, _d, dyn) in SessionVariables(GlobalVariables()).schema.items() if t is bool and dyn][:4]
+    n = 0
+    for name in names:
+        for word, want in (("OFF", False), ("off", False), ("0", False), ("false", False), ("ON", True), ("On", True), ("1", True), ("TRUE", True)):
+            for how in ("set", "hint"):
+                sess = VSession(); sess._connection = FakeConn()
+                try:
+                    loop.run_until_complete(sess.handle_query(f"SET {name} = {0 if want else 1}", {}))
+                    if how == "set":
+                        loop.run_until_complete(sess.handle_query(f"SET {name} = '{word}'", {}))
+                        r = loop.run_until_complete(sess.handle_query(f"SELECT @@{name}", {}))
+                    else:
+                        r = loop.run_until_complete(sess.handle_query(f"SELECT /*+ SET_VAR({name}='{word}') */ @@{name}", {}))
+                    got = r[0][0][0]
+                except Exception as e:  # noqa
+                    return dict(problem=f"SET {name} = '{word}' ({how}): {type(e).__name__}: {e}"[:200]), n
+                n += 1
+                if bool(got) != want or not isinstance(got, (bool, int)):
+                    return dict(problem=f"{name} assigned the string '{word}' by {how} reads {got!r}: coerced to the variable's type it is {want}",
+                                sql=f"SET {name} = '{word}'"), n
+        sess = VSession(); sess._connection = FakeConn()
+        before = sess.variables.get(name)
+        try:
+            loop.run_until_complete(sess.handle_query(f"SET {name} = 'maybe'", {}))
+            accepted = True
+        except Exception:  # noqa
+            accepted = False
+        n += 1
+        if accepted or sess.variables.get(name) != before:
+            return dict(problem=f"SET {name} = 'maybe' was {'accepted' if accepted else 'refused'} and {name} reads {sess.variables.get(name)!r}"), n
+    return None, n
+
+
 def custom_schema_defaults(loop):
     from mysql_mimic.variables import GlobalVariables, SessionVariables
     custom = dict(SYSTEM_VARIABLES)
@@ -598,6 +636,10 @@ def run(ctx: core.Ctx):
         # ---- an application that brings its own variable schema (other defaults): DEFAULT is THIS session's default, in every
         #      spelling - SET x = DEFAULT, SET NAMES DEFAULT, SET CHARACTER SET DEFAULT, SET_VAR(x = DEFAULT) - and SHOW VARIABLES
         #      / @@x read it back
+        qb, nqb = quoted_bool_probe(loop)
+        ctx.evals += nqb
+        if qb and witness is None:
+            witness = dict(kind="quoted-boolean", **qb)
         cw = custom_schema_defaults(loop)
         ctx.evals += cw[1]
         if cw[0] and witness is None:
@@ -633,8 +675,8 @@ def run(ctx: core.Ctx):
              "distinct = programs",
         samples=[dict(program=[o["sql"] for o in programs[len(fixed)][:6]])], distinct=len(programs),
         extra=dict(programs=len(programs), statements=sum(len(r) for r in results), statement_kinds=kinds, disagreements=len(disagreements),
-                   observation="bool('OFF') is True in Python: SET autocommit = 'OFF' (quoted) stores True; the model takes the code's coercion "
-                               "(the property fixes no coercion function); unquoted OFF / 0 / FALSE store False"),
+                   observation="SET autocommit = 'OFF' (quoted) stores False since /repo's _to_bool (before: bool('OFF') is True); "
+                               "quoted_bool_probe states it as an oracle, Model/Vars.v to_bool transcribes it"),
         assumptions=["SQL text -> statement structure is sqlglot's parser plus setitem_kind / expression_to_value: exercised by every "
                      "spelling, not modelled", "strftime and datetime.timezone are CPython's", "float values carry repr() text",
                      "which character sets have a codec is read from CPython's codec registry by the translator"],
